@@ -325,7 +325,7 @@ class BinaryFileReader:
 
     def read_table_definition(self):
         kind = self.read_type()
-        assert kind == "funcref"
+        assert kind in ("funcref", "externref")
         table_min, table_max = self.read_limits()
         id = self.gen_id("table")
         definition = components.Table(id, kind, table_min, table_max)
